@@ -138,8 +138,18 @@ def write_replay(spec, kind: str, payload: dict) -> Path:
     return p
 
 
+def _term(spec, c, o):
+    """Coq term of a case; a case whose observation cannot be shipped counts as a driver failure (fails the check)."""
+    try:
+        return spec.coq_term(c, o)
+    except Exception as e:
+        if isinstance(o, dict):
+            o.setdefault("driver_error", f"cannot print the case: {type(e).__name__}: {e}")
+        return spec.coq_term(c, {"driver_error": "unprintable observation"})
+
+
 def evaluate(spec, cases, obs, workdir, gen_q, name="cases"):
-    terms = [spec.coq_term(c, o) for c, o in zip(cases, obs)]
+    terms = [_term(spec, c, o) for c, o in zip(cases, obs)]
     return C.run_case_shards(workdir, name, spec.HEADER + "\n" + getattr(spec, "GEN_IMPORT", ""),
                              spec.CASE_TYPE, spec.CHECK, terms,
                              shard=getattr(spec, "SHARD", 250), extra_q=gen_q,
@@ -354,7 +364,18 @@ def main(argv=None) -> int:
         return run_check(rp["property"], args.tier, seed, replay=rp)
     if not args.property:
         ap.error("property id required")
-    return run_check(args.property.upper(), args.tier, seed)
+    pid = args.property.upper()
+    try:
+        return run_check(pid, args.tier, seed)
+    except Exception as e:      # the check itself broke: fail closed, never silently
+        C.REPLAYS.mkdir(exist_ok=True)
+        p = C.REPLAYS / f"{pid}-crash-{C.short_hash(traceback.format_exc())}.json"
+        p.write_text(json.dumps({"property": pid, "kind": "check-crashed",
+                                 "no_longer_checks": [f"the check for {pid} raised {type(e).__name__}: {e}"],
+                                 "trace": traceback.format_exc()[-3000:]}, indent=1))
+        print(f"VIOLATION property={pid} replay={p} no-failing-input-found")
+        C.log(traceback.format_exc()[-2000:])
+        return 1
 
 
 if __name__ == "__main__":
